@@ -484,6 +484,10 @@ class Engine:
                 st.env[(a.asname or a.name).split('.')[0]] = Module(a.name if isinstance(n, ast.Import)
                                                                     else '%s.%s' % (n.module, a.name))
             return [(st, None, None)]
+        if isinstance(n, ast.Assign) and len(n.targets) == 1 and isinstance(n.targets[0], ast.Name) and \
+                n.targets[0].id in getattr(self.c, 'skip_locals', ()):
+            st.env[n.targets[0].id] = Opaque(fresh('diag', TStr.sort))      # diagnostics-only local: not evaluated
+            return [(st, None, None)]
         if isinstance(n, ast.Assign):
             outs = []
             for s, k, v in self.rhs_outcomes(n.value, st):
@@ -1647,7 +1651,11 @@ class Engine:
                     ic = st.content(iv)
                     x = as_real(value)
                     k, j = fresh('k', I), fresh('j', I)
-                    hit = z3.Exists([j], z3.And(j >= 0, j < ic.n, z3.ToInt(ic.vals[j]) == k))
+                    # named predicate "k is one of the addressed positions" (keeps the quantifier out of the array term)
+                    HIT = z3.Function('addressed!%d' % len(self.obligations), I, Bo)
+                    st.assume(z3.ForAll([k], HIT(k) == z3.Exists([j], z3.And(j >= 0, j < ic.n, z3.ToInt(ic.vals[j]) == k))))
+                    st.ghost['last_scatter'] = HIT
+                    hit = HIT(k)
                     vals = z3.Lambda([k], z3.If(hit, x.val, c.vals[k]))
                     nans = None if (c.nans is None and x.nan is False) else z3.Lambda([k], z3.If(hit, x.nanz(), c.nan_at(k)))
                     if getattr(self.c, 'check_bounds', True):
@@ -2242,6 +2250,9 @@ class Engine:
     # ------------------------------------------------------------------ calls
     def call(self, node, st):
         fnode = node.func
+        skip = getattr(self.c, 'skip_calls', ())
+        if skip and ast.unparse(fnode) in skip:
+            return Opaque(fresh('skipped', TStr.sort))       # diagnostics only: arguments are not evaluated
         # receiver & name resolution
         if isinstance(fnode, ast.Attribute):
             base = self.ev(fnode.value, st)
